@@ -58,7 +58,7 @@ def t_FUNCTION(t):
 
 
 def t_XLERROR(t):
-    r'\#[A-Z0-9\/_]+(\!|\?)?'
+    r'\#(?:NULL\!|DIV\/0\!|VALUE\!|REF\!|NAME\?|NUM\!|N\/A|ERROR\!|GETTING_DATA|[A-Z0-9\/_]+(\!|\?)?)'
     return t
 
 
